@@ -422,6 +422,21 @@ pub fn run(session: &Session) -> i32 {
     }
     cases.push(json!({"kind": "value", "value": []}));
     cases.push(json!({"kind": "value", "value": [[], [[]]]}));
+    // big values: the rendering of a value is a literal however many leaves it has
+    for n in [100usize, 400, 1000, 3000] {
+        cases.push(json!({"kind": "value", "value": (0..n as i64).map(|k| json!(k * 37 - 50)).collect::<Vec<Json>>()}));
+        cases.push(json!({"kind": "value", "value": lit::tuple((0..n as i64).map(|k| if k % 2 == 0 { json!(k) } else { json!(format!("s{k}")) }).collect())}));
+        cases.push(json!({"kind": "value", "value": (0..n).map(|k| json!(format!("w{k}\n"))).collect::<Vec<Json>>()}));
+        cases.push(json!({"kind": "value", "value": (0..n).map(|k| lit::float(k as f64 * 0.5)).collect::<Vec<Json>>()}));
+    }
+    for side in [4usize, 7, 9] {
+        let cube: Vec<Json> = (0..side).map(|a| json!((0..side).map(|b| json!((0..side).map(|c| lit::tuple(vec![json!((a * side + b) as i64), json!(format!("{c}"))])).collect::<Vec<Json>>())).collect::<Vec<Json>>())).collect();
+        cases.push(json!({"kind": "value", "value": cube}));
+    }
+    for n in [1000usize, 20_000, 60_000] {
+        cases.push(json!({"kind": "value", "value": "aé\"\\\n€ ".chars().cycle().take(n).collect::<String>()}));
+        cases.push(json!({"kind": "value", "value": [json!("x".repeat(n)), json!(n as i64)]}));
+    }
     // sequences of values that look alike (`==` to each other, or printing alike) and are not the same
     // value: every array and tuple of length 2 and 3 over each family, also one level down
     let families: Vec<Vec<Json>> = vec![
